@@ -27,6 +27,13 @@ def parse_info(l):
         d[k] = vals
     return d
 
+def no_answer(res, case, o):
+    """a search that was asked for produced no bestmove line at all (hang, panic, dead search thread): never skipped silently"""
+    n = getattr(res, '_noanswer', 0)
+    if n < MAXREP:
+        res.violation('session', case, 'a bestmove line', o[-400:], 'property', 'the engine did not answer a go (hang, panic or dead search thread)')
+    res._noanswer = n + 1
+
 def searches(lines):
     """split a session's lines into per-go groups: (infos, bestmove line)"""
     out, cur = [], []
@@ -202,6 +209,7 @@ def c09(res, ctx):
     cases, meta = [], []
     for p, o, fr in zip(ps, pobs, fresh):
         ss, _ = searches(split_session(o))
+        if not ss: no_answer(res, 'position fen ' + p + '\tgo depth 3', o)
         if not ss or not ss[0][0]: continue
         last = parse_info(ss[0][0][-1])
         total = int(last.get('nodes', ['0'])[0])
@@ -246,7 +254,8 @@ def c09(res, ctx):
     follow, fmeta = [], []
     for (p, g), o in zip(tcases, tobs):
         ss, _ = searches(split_session(o))
-        if not ss: continue
+        if not ss:
+            no_answer(res, 'position fen %s\t%s' % (p, g), o); continue
         infos, bm = ss[-1]
         scored = [parse_info(i) for i in infos if ' score ' in i and ' depth ' in i]
         if not scored: continue
@@ -258,6 +267,7 @@ def c09(res, ctx):
     kk = 0
     for c, o, (p, g, d, score, best, orig) in zip(follow, fobs, fmeta):
         ss, _ = searches(split_session(o))
+        if not ss: no_answer(res, c, o)
         if not ss or not ss[-1][0]: continue
         ref = [parse_info(i) for i in ss[-1][0] if ' score ' in i][-1]
         rbest = ss[-1][1].split(' ')[1]
@@ -371,6 +381,7 @@ def c08(res, ctx):
     km = 0
     for (h, r), o in zip(mate3, m_obs):
         ss, _ = searches(split_session(o))
+        if not ss: no_answer(res, 'position fen ' + h + '\tgo depth 5', o)
         if not ss or not ss[-1][0]: continue
         fin = [i for i in ss[-1][0] if ' score ' in i]
         if not fin: continue
@@ -402,6 +413,7 @@ def c08(res, ctx):
         res.count('search-mates-d5-rich', ['\t'.join(['position fen ' + h, 'go depth 5']) for h, _ in rm])
         for (h, r), o in zip(rm, ro):
             ss, _ = searches(split_session(o))
+            if not ss: no_answer(res, 'position fen ' + h + '\tgo depth 5', o)
             if not ss or not ss[-1][0]: continue
             fin = [i for i in ss[-1][0] if ' score ' in i]
             if not fin: continue
@@ -714,6 +726,8 @@ def c11(res, ctx):
     res.count('session-symmetry', sc)
     for i in range(0, len(sc), 2):
         sa, _ = searches(split_session(so[i])); sb, _ = searches(split_session(so[i + 1]))
+        if not sa: no_answer(res, sc[i], so[i])
+        if not sb: no_answer(res, sc[i + 1], so[i + 1])
         if not sa or not sb or not sa[-1][0] or not sb[-1][0]: continue
         fa = [x for x in sa[-1][0] if ' score ' in x]; fb = [x for x in sb[-1][0] if ' score ' in x]
         if not fa or not fb: continue
